@@ -50,6 +50,8 @@ type Report struct {
 	Distinct    atomic.Int64
 	exhaustive  bool
 	toolErr     string
+	beat        atomic.Int64
+	finished    atomic.Bool
 }
 
 // New creates a report from the environment (VERIF_TIER, VERIF_SEED, VERIF_BUDGET_S).
@@ -71,6 +73,8 @@ func New(id, part, variant string) *Report {
 	if budget > 0 {
 		r.deadline = r.start.Add(time.Duration(budget) * time.Second)
 	}
+
+	r.startWatchdog()
 
 	return r
 }
@@ -265,6 +269,7 @@ type partial struct {
 // Finish writes the partial evidence to the file named by VERIF_OUT (appending one JSON document per line) and
 // returns the process exit status: 0 clean, 1 violations, 2 tool error.
 func (r *Report) Finish() int {
+	r.finished.Store(true)
 	r.mu.Lock()
 	defer r.mu.Unlock()
 
